@@ -395,9 +395,9 @@ def run(ctx):
             V.fail_tie("proof", "leanchecker rejected SimuVerif.Properties.C12", log=log)
     t_proof = time.time() - t0
     exe, rebuilt = vlib.build_repo.build_harness(HARNESS, "h_geometry", link_repo=True)
-    nfam = 40 if tier == "quick" else 400
+    nfam = 120 if tier == "quick" else 1500
     if not proof["ok"]:
-        nfam = max(nfam, 120)       # a proof or the translation broke: widen the search for a concrete failing input
+        nfam = max(nfam, 300)       # a proof or the translation broke: widen the search for a concrete failing input
     r = Rng(seed)
     cases = []      # dict(line, pts, faces, family, kind, meta)
     for name, v, f in corpus():
@@ -484,7 +484,7 @@ def run(ctx):
                 bit_identical += 1
     # ---- invariance residuals inside the families
     inv = invariance(V, cases, results, lines)
-    far = far_probe(exe, Rng(seed).fork("far")) if tier == "thorough" or seed % 2 == 1 else None
+    far = far_probe(exe, Rng(seed).fork("far"))
     rcode, nviol = V.finish()
     cov = {
         "obligations": proof["obligations"], "discharged": proof["discharged"],
